@@ -57,6 +57,7 @@ static CO_ERR UtUserWrite(CO_OBJ *o, CO_NODE *n, void *b, uint32_t s)
 #if CO_SSDO_N > 1
 static uint32_t S1Id[2]; static const uint32_t S1IdDflt[2] = { 0x6C1, 0x5C1 }; static CO_PARA SdoPara3;
 #endif
+static uint32_t CsId[2];      /* COB-IDs of SDO client 0 (1280h:1/:2): they share the type function of the server COB-IDs 1200h */
 static CO_PARA SdoPara, SdoPara2; static uint32_t SdoParaDflt = 0x0D0E0F00u;      /* second group: reset type node, over 2001h */
 static const CO_OBJ_TYPE UtRange = { UtSize, 0, UtRead, UtRangeWrite, 0 };
 static const CO_OBJ_TYPE UtUser  = { UtSize, 0, UtRead, UtUserWrite, 0 };
@@ -114,6 +115,11 @@ static void sdo_world_build(uint32_t nmt_operational)
     memcpy(&DRV.nvm[0x70], S1Id, 8);
     od_add(&b, CO_KEY(0x1010, 3, CO_OBJ_____RW), CO_TPARA_STORE, (CO_DATA)&SdoPara3);
 #endif
+    CsId[0] = 0x60A; CsId[1] = 0x58A;
+    od_add(&b, CO_KEY(0x1280, 0, CO_OBJ_D___R_), CO_TUNSIGNED8,  (CO_DATA)3);
+    od_add(&b, CO_KEY(0x1280, 1, CO_OBJ_____RW), CO_TSDO_ID, (CO_DATA)&CsId[0]);
+    od_add(&b, CO_KEY(0x1280, 2, CO_OBJ_____RW), CO_TSDO_ID, (CO_DATA)&CsId[1]);
+    od_add(&b, CO_KEY(0x1280, 3, CO_OBJ_D___R_), CO_TUNSIGNED8,  (CO_DATA)10);
     SdoPara.Offset = 0x60; SdoPara.Size = 4; SdoPara.Start = (uint8_t *)&V32; SdoPara.Default = (uint8_t *)&SdoParaDflt; SdoPara.Type = CO_RESET_COM; SdoPara.Ident = (void *)"v32"; SdoPara.Value = CO_PARA___E;
     SdoPara2.Offset = 0x68; SdoPara2.Size = 2; SdoPara2.Start = (uint8_t *)&V16; SdoPara2.Default = (uint8_t *)&SdoParaDflt; SdoPara2.Type = CO_RESET_NODE; SdoPara2.Ident = (void *)"v16"; SdoPara2.Value = CO_PARA___E;
     od_add(&b, CO_KEY(0x1010, 0, CO_OBJ_D___R_), CO_TPARA_STORE, (CO_DATA)(CO_SSDO_N > 1 ? 3 : 2));
@@ -174,7 +180,7 @@ static void sdo_world_build(uint32_t nmt_operational)
     if (nmt_operational) CONmtSetMode(&Node.Nmt, CO_OPERATIONAL);
     (void)CONodeGetErr(&Node);
     { uint32_t other = 0xDEADBEEFu; memcpy(&DRV.nvm[0x60], &other, 4); memcpy(&DRV.nvm[0x68], &other, 2); }   /* NVM and RAM differ from now on */
-    W_REG(SdoPara); W_REG(SdoPara2);
+    W_REG(SdoPara); W_REG(SdoPara2); W_REG(CsId);
 #if CO_SSDO_N > 1
     W_REG(S1Id); W_REG(SdoPara3);
 #endif
@@ -202,7 +208,7 @@ static int sdo_index_exists(uint16_t idx)
 {
     /* the statement: "unknown index 0602 0000h, unknown sub-index 0609 0011h".  The index exists if any sub of it does. */
     for (int i = 0; i < O_N; i++) if (OBJ[i].idx == idx) return 1;
-    if (idx == 0x1000 || idx == 0x1001 || idx == 0x1018 || idx == 0x1200) return 1;
+    if (idx == 0x1000 || idx == 0x1001 || idx == 0x1018 || idx == 0x1200 || idx == 0x1280) return 1;
 #if CO_SSDO_N > 1
     if (idx == 0x1201) return 1;
 #endif
